@@ -212,6 +212,11 @@ def seed_helper(name, bits, order=None):
                 except AssertionError:
                     reach("assertion (no result)")
                     outs.append(None)
+                except (core.CannotEncode, core.PathAbort, core.Counterexample, core.Inconclusive):
+                    raise
+                except Exception as ex:
+                    H.prove(False, "%s raises %s instead of returning a scalar" % (name, type(ex).__name__))
+                    return
         finally:
             util.sha256 = old
             util.string_to_number = real_s2n
